@@ -62,6 +62,10 @@ Definition m_init (nl nc : Z) (orc : nat -> Z -> Z -> rect -> Z -> Z -> bool) : 
   (* tickit_window_new_root exposes the whole root *)
   mkM (win_expose (root_new nl nc) 0 None) (term_new nl nc orc) app_base 0 [] [] [].
 
+(* the same with another amount of fuel for the rectangle-set loops *)
+Definition m_init_f (fuel : nat) (nl nc : Z) (orc : nat -> Z -> Z -> rect -> Z -> Z -> bool) : mstate :=
+  mkM (win_expose (root_new_f fuel nl nc) 0 None) (term_new nl nc orc) app_base 0 [] [] [].
+
 Definition m_set_root (m : mstate) (st : root) : mstate :=
   mkM st (m_term m) (m_app m) (m_gen m) (m_xlog m) (m_fevs m) (m_srecs m).
 
